@@ -58,19 +58,24 @@ def run_case(kind, q):
         frame = (q["bg"] + q["contrast"] * masks.circular(centerX=pos[1], centerY=pos[0], imageSizeX=shape[1],
                                                          imageSizeY=shape[0], radius=radius, antialiased=True)).astype(np.float32)
         start = np.array(q["start"])
-        for pipeline, runner in (("fast", impl.run_fast), ("full", impl.run_full)):
+        runs = [("fast", impl.run_fast, start), ("full", impl.run_full, start)]
+        if "start_full" in q:
+            # the full-frame method correlates the whole frame: its capture range is the whole search window, up to one pixel
+            # inside its border
+            runs.append(("full", impl.run_full, np.array(q["start_full"])))
+        for pipeline, runner, st_ in runs:
             try:
-                outs = runner(frame, pattern, start[np.newaxis])
+                outs = runner(frame, pattern, st_[np.newaxis])
             except Exception as e:
                 msgs.append(f"{pipeline} raised {type(e).__name__}: {e}")
                 continue
             cen, ref = np.asarray(outs[0][0], dtype=float), np.asarray(outs[1][0], dtype=float)
             if np.abs(cen - pos).max() > 1.0 + 1e-6:
                 msgs.append(f"{pipeline} {q['pattern']['kind']} r={radius} contrast {q['contrast']:.1f}: true centre "
-                            f"{pos.tolist()}, start {start.tolist()}: integer centre {cen.tolist()} off by more than 1 px")
+                            f"{pos.tolist()}, start {st_.tolist()}: integer centre {cen.tolist()} off by more than 1 px")
             elif np.abs(ref - pos).max() > 0.5 + 1e-6:
                 msgs.append(f"{pipeline} {q['pattern']['kind']} r={radius} contrast {q['contrast']:.1f}: true centre "
-                            f"{pos.tolist()}, start {start.tolist()}: refined {ref.tolist()} off by {np.abs(ref - pos).max():.3f} px")
+                            f"{pos.tolist()}, start {st_.tolist()}: refined {ref.tolist()} off by {np.abs(ref - pos).max():.3f} px")
         # the batch helpers on a stack of frames (the documented way of processing many frames: buffers are allocated once and
         # reused): the disk sits at another sub-pixel position in every frame, all within the capture range of the same start
         if q.get("stack"):
@@ -144,6 +149,10 @@ def search(ctx, boost=1, focus=()):
         start = [int(np.clip(start[0], c, shape[0] - c)), int(np.clip(start[1], c, shape[1] - c))]
         q = {"seed": int(rng.integers(1 << 30)), "pattern": pat, "shape": shape, "pos": pos, "start": start,
              "bg": float(rng.uniform(0, 50)), "contrast": float(10 ** rng.uniform(0, 3))}
+        if k % 4 == 2:
+            rp = [int(np.round(pos[0])), int(np.round(pos[1]))]
+            sf = [rp[i] + c - int(rng.choice([1, 2, 2 * c - 2, 2 * c - 3, c])) for i in range(2)]   # window index of the centre
+            q["start_full"] = sf
         if (k // 4) % 2 == 1:
             room = max(0.0, cap - max(abs(int(np.round(pos[0])) - start[0]), abs(int(np.round(pos[1])) - start[1])) - 0.5)
             room = min(room, pos[0] - c - 2, pos[1] - c - 2, shape[0] - c - 2 - pos[0], shape[1] - c - 2 - pos[1])
